@@ -157,6 +157,10 @@ def v_window(p):
   def body(ctx):
     ctx.model_vars['window_len'] = z3.Length(win)
     ctx.assume(z3.Length(win) >= 1)
+    # the configured size: by afa.window.init and afa.window.len every state's window has exactly that many entries
+    kw = z3.Int('domain_window_size')
+    ctx.assume(kw == z3.Length(win))
+    eng.globals['domain_window_size'] = kw
     SS = eng._resolve_in(ctx, AF, 'ServerState')[0]
     eng.globals['ServerState'] = SS
     wl = ctx.alloc(ListCell(win, VCODEC, owner='param', label='server_state.domain_window'))
